@@ -205,7 +205,14 @@ def evaluate(prop, res):
     cov = collections.Counter()
     samples = []
 
+    # declarations the rule set calls invalid are the business of C09 / C10 (and C19 for `debug`) only: when rustc
+    # accepts one of them, what its accessors do says nothing about the properties of *valid* declarations
+    invalid_names = set(d["name"] for d in decls if d["expect"] == "invalid")
+    layout_props = prop not in ("C09", "C10", "C17", "C19")
+
     def add(kind, what, detail):
+        if layout_props and detail.get("declaration") in invalid_names:
+            return
         findings.append(Finding(kind, prop, what, detail))
 
     # ---- operations ------------------------------------------------------------------------------
@@ -342,7 +349,7 @@ def evaluate(prop, res):
 
     # ---- structural comparison of Debug impl / builder / enum conversions with the model --------------------------------
     sc = res.get("struct_cmp", {})
-    want_what = {"C19": "debug", "C13": "builder", "C14": "builder", "C07": "enum"}.get(prop)
+    want_what = {"C19": "debug", "C13": "builder", "C14": "builder", "C07": "enum", "C06": "consts"}.get(prop)
     if want_what:
         cov["structure_equal"] = sc.get("equal", 0)
         for (name, what, real, want) in [tuple(x) for x in sc.get("differ", [])]:
@@ -379,7 +386,7 @@ def evaluate(prop, res):
     if prop in ("C09", "C10"):
         want_kind = "bitfield" if prop == "C09" else "bitenum"
         for d in decls:
-            if d["kind"] != want_kind:
+            if d["kind"] != want_kind or "debug-invalid" in d["classes"]:
                 continue
             name = d["name"]
             real = name in accepted
@@ -449,8 +456,9 @@ def evaluate(prop, res):
                             add("violation", "generated item is not const", {"declaration": name, "item": n, "source": src})
                     if k == "fn" and n.startswith("set_") and c:
                         pass
-                rc = set((k, n, c) for (k, n, p, c, dd) in real_n)
-                mc = set((k, n, c) for (k, n, p, c, dd) in mdl_n)
+                both = set((k, n) for (k, n, p, c, dd) in real_n) & set((k, n) for (k, n, p, c, dd) in mdl_n)
+                rc = set((k, n, c) for (k, n, p, c, dd) in real_n if (k, n) in both)
+                mc = set((k, n, c) for (k, n, p, c, dd) in mdl_n if (k, n) in both)
                 if rc != mc and not any(f.prop == prop and f.kind == "violation" and f.detail.get("declaration") == name for f in findings):
                     add("correspondence", "const qualifiers differ from the model", {"declaration": name, "diff": sorted(rc ^ mc)})
             if prop == "C18":
@@ -461,8 +469,9 @@ def evaluate(prop, res):
                             if not dd:
                                 src, _ = decl_source(table, d)
                                 add("violation", "public item without documentation", {"declaration": name, "item": n, "source": src})
-                rd = set((k, n, dd) for (k, n, p, c, dd) in real_n if k != "traitfn")
-                md = set((k, n, dd) for (k, n, p, c, dd) in mdl_n if k != "traitfn")
+                both = set((k, n) for (k, n, p, c, dd) in real_n) & set((k, n) for (k, n, p, c, dd) in mdl_n)
+                rd = set((k, n, dd) for (k, n, p, c, dd) in real_n if k != "traitfn" and (k, n) in both)
+                md = set((k, n, dd) for (k, n, p, c, dd) in mdl_n if k != "traitfn" and (k, n) in both)
                 if rd != md and not any(f.kind == "violation" and f.detail.get("declaration") == name for f in findings):
                     add("correspondence", "doc attributes differ from the model", {"declaration": name, "diff": sorted(rd ^ md)})
             if prop == "C14":
